@@ -356,11 +356,10 @@ def pendingInner : Nat → Emit F → R (Emit F × Option Stage)
     | entry :: rest =>
       match PSend.findPacket e.s.ps entry.uid with
       | none =>
-        -- `self.resend_queue.pop(); continue;` — the pending entry stays at the front: the loop
-        -- drains the resend queue and then spins forever
-        .error .hang
+        -- the packet is gone (window acknowledged past it): `self.pending_queue.pop_front(); continue;`
+        pendingInner fuel { e with s := { e.s with pending := rest } }
       | some p =>
-        if entry.fid ∈ p.acked then .error .hang   -- same code path
+        if entry.fid ∈ p.acked then pendingInner fuel { e with s := { e.s with pending := rest } }
         else
           match dfePush e p entry.fid entry.resend with
           | .error t => .error t
